@@ -162,6 +162,9 @@ func (q *Queue[T]) BlockingAdd(ctx context.Context, item T) error {
 	defer cancel()
 
 	for q.tracker.cap() <= q.tracker.len() {
+		if q.closed {
+			return ErrQueueClosed
+		}
 		select {
 		case <-ctx.Done():
 			return ctx.Err()
